@@ -46,6 +46,10 @@ void blocked_cases(Index n, const Pattern& p)
   {
     std::string cn = nm + " " + cfg; if(!H<DT>::want(cn)) return;
     H<DT>::begin(cn, "{\"precond\":\"" + nm + "\"}");
+    { bool clean = uninit_free<DT>([&]() -> bool { BM<DT> A0 = make_bcsr<DT, Index, B, B, BM<DT>>(n, n, p, "a", nullptr); NF f0; BV<DT> d0(n), c0(n); for(Index i = 0; i < n * B; ++i) d0.template elements<LAFEM::Perspective::pod>()[i] = H<DT>::var("d" + str(i), 0.5 + 0.375 * double(i));
+        for(Index i = 0; i < n; ++i) for(Index k = A0.row_ptr()[i]; k < A0.row_ptr()[i + 1]; ++k) if(A0.col_ind()[k] == i) for(int a = 0; a < B; ++a) A0.val()[k](a, a) = H<DT>::var("ad" + str(i) + "_" + str(Index(a)), 3.25 + 0.4375 * double(i * B + Index(a)));
+        auto s0 = mk(A0, f0); s0->init(); s0->apply(c0, d0); bool fin = true; for(Index i = 0; i < n * B; ++i) { double x = H<DT>::sh(c0.template elements<LAFEM::Perspective::pod>()[i]); fin = fin && (x == x); } s0->done(); return fin; });
+      H<DT>::fact("apply into a fresh correction vector does not read uninitialised memory", clean, "uninitialised entries are read"); if(!clean) { H<DT>::end(); return; } }
     Dense<DT> DA; BM<DT> A = make_bcsr<DT, Index, B, B, BM<DT>>(n, n, p, "a", &DA); NF filt;
     // make the diagonal blocks dominant at the shadow point (values stay free symbols)
     for(Index i = 0; i < n; ++i) for(Index k = A.row_ptr()[i]; k < A.row_ptr()[i + 1]; ++k) if(A.col_ind()[k] == i)
